@@ -192,6 +192,9 @@ func (m *mapParallelCollection) Begin() b6.Iterator[any, any] {
 	// Fork the VM here, on the caller's goroutine: the caller carries on using
 	// its VM as soon as Begin() returns (for example to consume another
 	// collection), which would race with a fork made from run().
+	if m.context.Goroutines != nil {
+		m.context.Goroutines.Add(1)
+	}
 	go c.run(m.context.Fork(m.context.Cores))
 	return c
 }
@@ -226,6 +229,9 @@ func (m *mapParallelCollection) ValueExpression() b6.Expression {
 }
 
 func (m *mapParallelCollection) run(contexts []*api.Context) {
+	if m.context.Goroutines != nil {
+		defer m.context.Goroutines.Done()
+	}
 	g, c := errgroup.WithContext(m.context.Context)
 	for i := range m.in {
 		in, out, context := m.in[i], m.out[i], contexts[i]
